@@ -145,6 +145,33 @@ int main(int argc, char **argv) {
   S->push_back("DATA\n"); S->push_back("DATA lab\n"); S->push_back("-\n"); S->push_back("- 5\n"); S->push_back("LDAC - 5\n"); S->push_back("LDAC -\n"); S->push_back("LDAC --5\n");
   { std::string many; for (int i = 0; i < 2000; i++) many += "l" + std::to_string(i) + "\nBR l" + std::to_string((i * 7) % 2000) + "\n"; S->push_back(many); }
   fams.push_back({"hostile", [=] { return (uint64_t)S->size(); }, [=](uint64_t i, std::string *) { return (*S)[i]; }, 16});
+  // (d2) sizes: every construct that has a size, around each power of 256 a one- or two-byte field could hold
+  {
+    auto Z = std::make_shared<std::vector<std::string>>();
+    std::vector<int> sizes = {31, 32, 33, 63, 64, 65, 127, 128, 129, 254, 255, 256, 257, 258, 300, 511, 512, 513, 1000, 1023, 1024, 1025, 4095, 4096, 4097};
+    if (ctx.thorough()) for (int z : {8192, 16384, 32767, 32768, 65535, 65536, 65537}) sizes.push_back(z);
+    auto rep_ = [](int n, const std::function<std::string(int)> &f) { std::string r; for (int i = 0; i < n; i++) r += f(i); return r; };
+    for (int n : sizes) {
+      std::string nm; for (int i = 0; i < n; i++) nm += (char)('a' + i % 26);
+      Z->push_back("BR " + nm + "\n" + nm + "\nLDAC 1\n");
+      Z->push_back("PROC " + nm + "\nLDAC 1\nFUNC f" + nm + "\nBR " + nm + "\n");
+      Z->push_back("BR " + nm + "\n");                                   // unknown label of that length in the diagnostic
+      Z->push_back("LDAC " + std::string(n, '0') + "7\n");
+      Z->push_back("LDAC -" + std::string(n, '9') + "\n");
+      Z->push_back("DATA " + std::string(n, '9') + "\n");
+      Z->push_back("#" + nm + "\nLDAC 1\n");
+      Z->push_back("LDAC" + std::string(n, ' ') + "1" + std::string(n, '\n') + "OPR" + std::string(n, '\t') + "SVC\n");
+      Z->push_back("LDAC 1 " + nm + " $\n");                             // error at the end of a long line
+      Z->push_back(rep_(n, [](int i) { return "l" + std::to_string(i) + "\n"; }) + "BR l0\n");                     // run of labels
+      Z->push_back(rep_(n, [](int i) { return "PROC p" + std::to_string(i) + "\nLDAC " + std::to_string(i) + "\n"; }) + "BR p0\n");   // debug symbols
+      Z->push_back(rep_(n, [](int i) { return "DATA " + std::to_string(i * 2654435761u) + "\n"; }));
+      Z->push_back("BR end\n" + rep_(n, [](int i) { return std::string("LDAC 0\n"); }) + "end\nLDAC 0\n");          // forward reference across n bytes
+      Z->push_back("top\n" + rep_(n, [](int i) { return std::string("LDAC 0\n"); }) + "BR top\n");                   // backward reference across n bytes
+      Z->push_back(rep_(n, [n](int i) { return "BR l" + std::to_string(n - 1 - i) + "\nl" + std::to_string(i) + "\n"; }));   // crossing references
+      Z->push_back(rep_(n, [](int i) { return std::string("OPR SVC\n"); }));
+    }
+    fams.push_back({"sizes", [=] { return (uint64_t)Z->size(); }, [=](uint64_t i, std::string *) { return (*Z)[i]; }, 64});
+  }
   // (e) layout termination on the C05 corpus (text path, smallest gap set)
   auto C = std::make_shared<asmgen::Corpus>(); C->build(3, 2, {0, 1, 3, 14, 15, 16, 254, 255}, true);
   fams.push_back({"layout-corpus", [=] { return C->total; }, [=](uint64_t i, std::string *) { return asmgen::render(C->make(i)); }, 64});
